@@ -591,6 +591,39 @@ Example C05_tr_term_push_oob :
 Proof. cbv zeta. split; vm_compute; reflexivity. Qed.
 
 (* ======================================================================================== *)
+(* (9) uc.c uc_trim (a04410e), CapDefs3.v: what the editor keeps of a string that snprintf cut to the size of a fixed
+   array (cmp[64] of led_line, vi_msg[512]).  For EVERY string of non-NUL bytes: the loop terminates, the terminator is
+   stored inside the string's own bytes, the result is a prefix of the input (so never longer), it consists of whole
+   characters as uc_len counts them (no lead byte without the bytes it announces: uc_code never reads past the end),
+   it is the LONGEST such prefix (it is the whole input, or the next character announces more bytes than are left),
+   and trimming it again changes nothing *)
+Theorem C05_uc_trim_spec : forall s, nonul s ->
+  exists i, uc_trim s = Ok (firstn i s) /\ (i <= length s)%nat /\ wholechars (firstn i s) /\
+            (i = length s \/ (length s < i + UcDefs.uc_len (skipn i s))%nat) /\
+            uc_trim (firstn i s) = Ok (firstn i s).
+Proof. exact uc_trim_spec. Qed.
+Print Assumptions C05_uc_trim_spec.
+
+(* snprintf into an array of [size] bytes followed by uc_trim: of a string of whole characters, whole characters of that
+   string are kept, fewer than [size] bytes *)
+Theorem C05_cut_keeps_whole_chars : forall size s, nonul s -> wholechars s ->
+  exists i, cut_store size s = Ok (firstn i s) /\ (i <= size - 1)%nat /\ (i <= length s)%nat /\ wholechars (firstn i s).
+Proof. exact cut_store_spec. Qed.
+Print Assumptions C05_cut_keeps_whole_chars.
+
+(* non-vacuity and teeth: "ab" + two four-byte characters cut to 7 + 1 bytes keeps "ab" and the first character; the
+   untrimmed cut "ab" f0 9f 98 80 f0 is not made of whole characters (what a04410e repaired) *)
+Example C05_nonvacuous4 :
+  let s := [97; 98; 240; 159; 152; 128; 240; 159; 152; 128]%N in
+  nonul s /\ wholechars s /\ cut_store 8 s = Ok [97; 98; 240; 159; 152; 128]%N /\ ~ wholechars (firstn 7 s).
+Proof.
+  cbv zeta. split; [repeat constructor|]. split.
+  { repeat (apply wc_cons; [discriminate|vm_compute; split; repeat constructor|cbn]). constructor. }
+  split; [vm_compute; reflexivity|].
+  intro W. pose proof (trim_at_whole 8 _ 0 W (le_n 8)) as H. vm_compute in H. discriminate H.
+Qed.
+
+(* ======================================================================================== *)
 (* (10) ex.c ex_region / ex_lineno on the TRANSLATED C text (TrExAddr.v): the C text of C05_region_reads_safe and
    C05_lineno_stays_inside.  For every NUL-free address string s without '/' and '?' (ex_search is not translated; the
    body lemmas of TrExAddr.v hold for any search oracle that stays inside the string), any buffer length, current line and
